@@ -115,12 +115,16 @@ class Build:
             cmd.append('--heapcheck')
         for s in self.cfg.get('stubs', []):
             cmd += ['--stub', s]
+        for s in self.cfg.get('empty_regex', []):
+            cmd += ['--empty-regex', s]
         for s in self.cfg.get('entry_asserts', []):
             cmd += ['--entry-assert', s]
         rc, out = sh(cmd)
         for l in out.splitlines():
             if l.startswith('ENCODED'):
                 self.encoded = l.split()[1:]
+            if l.startswith('EMPTIED'):
+                self.stats['contract_only_functions'] = l.split()[1:]
             m = re.match(r'll2c: functions=(\d+) virtual_sites=(\d+) indirect_sites=(\d+)', l)
             if m:
                 self.stats = {'functions_translated': int(m.group(1)), 'virtual_call_sites': int(m.group(2)), 'indirect_call_sites': int(m.group(3))}
